@@ -276,6 +276,10 @@ def closeness_case(group, ua, ud, form_a, form_d, atol_spec, rtol_spec, f, sign,
     special: None | "nan" | "nan-equal" | "inf" | "inf-mismatch"
     """
     D_si = np.array(base if base is not None else BASE_SI[group], dtype=float)
+    if form_a in ("qty", "bare-scalar") or form_d in ("qty", "bare-scalar"):
+        D_si, idx = D_si[:1], 0                   # a scalar operand: one-element scenario
+        if special:
+            return
     rtol = {"default": 1e-7}.get(rtol_spec[0], rtol_spec[1] if len(rtol_spec) > 1 else None)
     ATOL_si = 0.0 if atol_spec[0] in ("none", "incomm") else float(atol_spec[1])
     T = ATOL_si + rtol * np.abs(D_si)
